@@ -461,7 +461,7 @@ theorem otv_k0_wDropU : ofTypeVal liveTable "x" (.known (.int 0)) true wDropU =
     unite, dedup, dictMem, Ty.hashEq, Ty.beq]
 
 theorem wDrop_stop : stopMap [[("x", Ty.known (.int 0))]] (some [("x", .typed C.str)]) = some [("x", wDropU)] := by
-  simp [stopMap, uniteVarmaps, wDropU, unite, flatten1, dedup, dictMem, Ty.hashEq]
+  simp [stopMap, uniteVarmaps, wDropU, unite, flatten1, dedup, dictMem, Ty.hashEq, Ty.beq]
 
 theorem boolOpDrop_model :
     evaluate liveTable [] (Env.ofList [("x", wDropU)]) (.typed C.complex) wDropBody =
